@@ -84,7 +84,13 @@ def generate(rng, tier, index):
             k1 = int(rng.integers(1, 5))
             s1 = int(rng.integers(0, max(1, T // 3)))
             n1 = len(saved_steps(T, k1, s1))
-            stacked.append([k1, s1, int(rng.integers(1, 5)), int(rng.integers(0, max(1, n1 // 2)))])
+            k2 = int(rng.integers(1, 5))
+            if k1 == 1 and k2 == 1:
+                # two filters that both keep every step carry equal-shaped index arrays as pytree metadata; jax then fails to
+                # compare the two branches of the library's lax.cond at trace time ("arrays cannot be passed as metadata
+                # fields") - a degenerate pipeline (identity twice), seen at seed 7 and noted in DESIGN 10, not generated
+                k2 = 2
+            stacked.append([k1, s1, k2, int(rng.integers(0, max(1, n1 // 2)))])
     return {
         "stacked": stacked,
         "T": T,
